@@ -204,7 +204,9 @@ struct op_shape_reshape { OP_HEAD("shape_reshape") CX_ALL OP_TAG(ix::shape_resha
         in<vals<2,3,4>, vals<4,-1,2>>,
         in<vals<2,3>, vals<-1>>,
         in<vals<2,1,3>, vals<3,2,1>>,
-        in<vals<2,3>, vals<-1,4>>               // failure with -1
+        in<vals<2,3>, vals<-1,4>>,              // failure with -1
+        in<vals<2,6>, vals<2,3>>,               // failure: the target element count is a PROPER DIVISOR of the source's (a seeded change accepted exactly this for constant targets)
+        in<vals<2,3>, vals<3>>                  // failure: same, rank-reducing
     >;
     template <typename... A> static constexpr auto call(const A&... a) { return ix::shape_reshape(a...); }
 };
@@ -495,7 +497,8 @@ struct v_reshape { VIEW_HEAD("view_reshape")
     using inputs = tl<
         in<arrv<2,3>, vals<3,2>>, in<arrv<2,3>, vals<6>>, in<arrv<2,3>, vals<-1,2>>,
         in<arrv<2,3>, vals<4,2>>,                // failure
-        in<arrv<2,1,3>, vals<3,2>>, in<arrv<4>, vals<2,2>>, in<arrv<2,3>, vals<1,6,1>>, in<arrv<2,3,2>, vals<4,-1>>
+        in<arrv<2,1,3>, vals<3,2>>, in<arrv<4>, vals<2,2>>, in<arrv<2,3>, vals<1,6,1>>, in<arrv<2,3,2>, vals<4,-1>>,
+        in<arrv<2,6>, vals<2,3>>                 // failure: target element count is a proper divisor of the source's
     >;
     template <typename... A> static auto call(const A&... a) { return view::reshape(a...); }
 };
